@@ -16,17 +16,22 @@ META = dict(
          "liquidity/rewards/auction messages, price moves, V2 liquidations, Dutch and English bids, epochs, swap-fee conversion at height 150, seeded "
          "random tail) with real blocks (BeginBlock/router/EndBlock/Commit) on independent instances and processes; every replica logs one digest per "
          "module store (+bank), (ok, code, response hash, gas) per message and an order-sensitive digest of the events of every message and of Begin/EndBlock after every block; TLC compares every replica with the reference at "
-         "every height. Sampled over seeds, exhaustive over the bounded interleavings.",
+         "every height. In addition every block that carries messages or follows a long gap is executed 8 (thorough: 16) times from the same "
+         "committed state on cache branches and the executions are compared with each other (state, results incl. gas of rejected multi-fault "
+         "messages, events): rarely varying code (1 execution in 8) is exercised tens of times per workload. The workload contains pool-less "
+         "order books with same-price groups of very different order sizes and zero-share orders, multi-fault rejected messages, the emergency "
+         "controls and block gaps of more than two epochs. Sampled over seeds, exhaustive over the bounded interleavings.",
     note="Trusted: TLC/Json module, SHA-256 store dumps via the app's store keys, Go's per-process map randomisation as the source of "
          "iteration-order variation (a nondeterministic map range shows up with probability 1-2^-k over k replicas/blocks, not with certainty). "
          "Wall clock never enters headers; time.Now() uses under x/ and app/ are listed as information.",
     design_ref="4 C16",
 )
 
-NEED_TAGS = ["liquidity.limit", "liquidity.market", "liquidity.mm", "liquidity.depositfarm", "rewards.gauge", "vault.create", "locker.create",
+NEED_TAGS = ["esm.killswitch", "esm.execute", "esm.redeem", "liquidity.limit.dust", "vault.interest", "liquidity.limit", "liquidity.market", "liquidity.mm", "liquidity.depositfarm", "rewards.gauge", "vault.create", "locker.create",
              "lend.borrow", "aucv2.bid.dutch", "aucv2.bid.english", "aucv2.limitbid", "liqv2.internal", "rewards.extlocker"]
 NEED_COVER = dict(gaugesDistributed=1, maxActiveFarmersInAPool=3, pairsMatched=2, feeConversions=1, lockedVaultsV2=2, bidsV2=3, swapFeeGaugeTriggers=1,
-                  cancelAllMultiPair=5, multiPoolBatches=8, events=1000)
+                  cancelAllMultiPair=5, multiPoolBatches=8, events=1000,
+                  dustBatches=5, multiFaultRejections=20, guardedRejections=3, longGaps=2, rerunBlocks=20)
 
 
 def time_now_uses():
@@ -62,7 +67,7 @@ def run(c):
     logf = os.path.join(c.wd, "replica.ndjson")
     tail, pad, nsched = (20, 150, 2) if quick else (300, 450, 8)
     vlib.run_vh(["pairs", "replicas", "--seed", str(c.seed), "--out", logf, "--work", c.wd, "--tail", str(tail), "--pad", str(pad),
-                 "--schedules", tfile, "--nsched", str(nsched), "--procs", "1,4,16"], timeout=1500 if quick else 3000)
+                 "--schedules", tfile, "--nsched", str(nsched), "--procs", "1,4,16", "--reruns", str(8 if quick else 16)], timeout=1500 if quick else 3000)
     tr = vlib.trace_check(c.wd, "Trace_Replica", "Trace_Replica.cfg", logf, workers=4, timeout=1200)
     c.judge(tr, logf)
     nodes = vlib.read_log(logf)
@@ -70,7 +75,9 @@ def run(c):
     st = tr["stats"]
     missing = [t for t in NEED_TAGS if meta["tags"].get(t, 0) == 0]
     low = ["%s=%d<%d" % (k, meta["cover"].get(k, 0), v) for k, v in NEED_COVER.items() if meta["cover"].get(k, 0) < v]
-    if missing or low or st.get("replicas", 0) < 2 + 2 * nsched or st.get("compared", 0) == 0 or st.get("okTxs", 0) < 100:
+    # vacuity control (not applied when TLC already found a violation on real-code states: a changed tree may also change what the workload reaches)
+    if not c.violations and (missing or low or st.get("replicas", 0) < 2 + 2 * nsched or st.get("compared", 0) == 0 or st.get("okTxs", 0) < 100 \
+            or st.get("reruns", 0) < 100 or st.get("rerunFailedTxs", 0) < 10):
         raise vlib.NoVerdict("vacuous run: missing successful message kinds %s, low coverage %s, stats %s" % (missing, low, st))
     def slim(n):
         n = dict(n)
